@@ -63,6 +63,18 @@ class Plain(object):
         return options[0]
 
 
+class Named(object):
+    """Field references always by column name (a.name / a["name"] / a['name'] by `style` 2..4) when a header exists; first option otherwise."""
+
+    def __init__(self, style=2):
+        self.style = style
+
+    def pick(self, options):
+        if len(options) == 5 and isinstance(options[0], str) and options[0][:1] in 'ab' and options[0][1:].isdigit():
+            return options[self.style]
+        return options[0]
+
+
 # ------------------------------------------------------------------ rendering: expressions
 
 def fld(e, case, sp, lang):
@@ -127,7 +139,10 @@ def expr(e, case, sp, lang='py'):
     if k == 'true':
         return 'True' if py else 'true'
     if k in ('bmin', 'bmax'):
-        return '%s(%s, %s)' % ('min' if k == 'bmin' else 'max', X(1), X(2)) if py else 'Math.%s(%s, %s)' % ('min' if k == 'bmin' else 'max', X(1), X(2))
+        if py:
+            return '%s(%s, %s)' % ('min' if k == 'bmin' else 'max', X(1), X(2))
+        # type-agnostic like Python's min / max (Math.max would turn strings into NaN): a call with a comma in its argument list
+        return '((x, y) => (x %s y ? x : y))(%s, %s)' % ('<' if k == 'bmin' else '>', X(1), X(2))
     if k == 'bmaxl':
         return 'max([%s, %s])' % (X(1), X(2))
     if k == 'bsum':
